@@ -1,5 +1,6 @@
 import Arc.Generated.C16
 import Arc.Proofs.C16.Main
+import Arc.Proofs.C16.Mask
 /-!
 C16 — Query answers match DuckDB's semantics for the same SQL.
 
@@ -99,6 +100,27 @@ set_option maxRecDepth 8000 in
 example : String.ofList (render (rewrite none exRaw)) =
     "WITH r AS (SELECT x FROM read_parquet('ROOT/default/cpu/**/*.parquet', union_by_name=true)) SELECT * \n FROM r a LEFT OUTER JOIN read_parquet('ROOT/prod/mem/**/*.parquet', union_by_name=true) b ON a.x = EXTRACT(hour FROM b.t)" := by
   decide
+
+-- ================================================================ function-body FROM mask (frame stack)
+/-- MaskFromKeywordsInFunctionBodies, transcribed as `maskFns`: in `TRIG ( pre FROM rest`, TRIG one of
+EXTRACT/SUBSTRING/TRIM/OVERLAY, the FROM at the body's own level is masked WHATEVER is nested in the operand
+`pre` before it — calls and parentheses to any depth, FROM keywords of sub-queries inside them (`walk 0 pre =
+some 0`: balanced, no further trigger word, no FROM at the body level) — and the scan continues inside the same
+frame. (A frame popped one level too early, seeded change C16-b1, falsifies exactly this.) -/
+theorem C16_mask_body (st : MS) (t f : Str) (pre rest : List Tok) (ht : isTrigger t = true)
+    (hf : lower f = "from".toList) (hw : walk 0 pre = some 0) :
+    maskFns st (.w t :: .p '(' :: (pre ++ .w f :: rest)) =
+      .w t :: .p '(' :: (pre ++ .m f :: maskFns ⟨st.depth + 1, (st.depth + 1) :: st.stack, false⟩ rest) :=
+  mask_body st t f pre rest ht hf hw
+
+/-- `SUBSTRING(UPPER(CONCAT(a.pfx,(b.host))) FROM a.n FOR 3)`: three nested levels before the FROM. -/
+example : walk 0 [.w (S "UPPER"), .p '(', .w (S "CONCAT"), .p '(', .w (S "a"), .p '.', .w (S "pfx"), .p ',', .p '(',
+      .w (S "b"), .p '.', .w (S "host"), .p ')', .p ')', .p ')', sp] = some 0 ∧ isTrigger (S "SUBSTRING") = true := by decide
+
+example : String.ofList (render (rewrite none
+    [.w (S "SELECT"), sp, .w (S "SUBSTRING"), .p '(', .w (S "UPPER"), .p '(', .w (S "host"), .p ')', sp, .w (S "FROM"), sp,
+     .w (S "cnt"), .p ')', sp, .w (S "FROM"), sp, .w (S "cpu")])) =
+    "SELECT SUBSTRING(UPPER(host) FROM cnt) FROM read_parquet('ROOT/default/cpu/**/*.parquet', union_by_name=true)" := by decide
 
 -- ================================================================ witnesses: classes where the full statement fails
 private def tk (xs : List Tok) : List Item := xs.map Item.tok
